@@ -770,6 +770,66 @@ def tr_parse_region(tree):
         "Definition parse_region_source_pins : bool := true."])
 
 
+def pin_body(tree, qual, text):
+    """the whole body of a function (docstring dropped) must be, statement for statement, the pinned text"""
+    got = strip_doc(find(tree, qual).body)
+    want = ast.parse(textwrap.dedent(text)).body
+    if len(got) != len(want):
+        raise Unsupported(f"{qual}: {len(got)} statements, pinned {len(want)}")
+    for g, w in zip(got, want):
+        if ast.unparse(g) != ast.unparse(w):
+            raise Unsupported(f"{qual}: pinned statement changed:\n   expected: {ast.unparse(w)[:200]}\n   found:    {ast.unparse(g)[:200]}")
+
+
+def tr_rename_pins(tree):
+    """rename_chroms: chroms/name is rewritten from the renamed index, the bins/chrom enum is rebuilt from the NEW names in
+    chromosome order over the unchanged codes whenever the column is categorical, and the Cooler object is refreshed"""
+    pin_body(tree, "_rename_chroms", """
+        chroms = get(grp["chroms"]).set_index("name")
+        n_chroms = len(chroms)
+        new_names = np.array(chroms.rename(rename_dict).index.values, dtype=CHROM_DTYPE)
+        del grp["chroms/name"]
+        grp["chroms"].create_dataset("name", shape=(n_chroms,), dtype=new_names.dtype, data=new_names, **h5opts)
+        bins = get(grp["bins"])
+        n_bins = len(bins)
+        if isinstance(bins["chrom"].dtype, pd.CategoricalDtype):
+            idmap = dict(zip(new_names, range(n_chroms)))
+            chrom_ids = bins["chrom"].cat.codes
+            chrom_dtype = h5py.special_dtype(enum=(CHROMID_DTYPE, idmap))
+            del grp["bins/chrom"]
+            try:
+                grp["bins"].create_dataset("chrom", shape=(n_bins,), dtype=chrom_dtype, data=chrom_ids, **h5opts)
+            except ValueError:
+                chrom_dtype = CHROMID_DTYPE
+                grp["bins"].create_dataset("chrom", shape=(n_bins,), dtype=chrom_dtype, data=chrom_ids, **h5opts)
+    """)
+    pin_body(tree, "rename_chroms", """
+        h5opts = _set_h5opts(h5opts)
+        with clr.open("r+") as f:
+            _rename_chroms(f, rename_dict, h5opts)
+        clr._refresh()
+    """)
+    return "Definition rename_chroms_source_pins : bool := true."
+
+
+def tr_dtypes_alias_pins(tree):
+    """the deprecated `dtype=` spelling of `dtypes=` is resolved in one place, and the resolved mapping is what the creators use"""
+    pin_body(tree, "_get_dtypes_arg", """
+        if "dtype" in kwargs:
+            if dtypes is None:
+                dtypes = kwargs.pop("dtype")
+                warnings.warn("Use dtypes= instead of dtype=", FutureWarning, stacklevel=2)
+            else:
+                raise ValueError('Received both "dtypes" and "dtype" arguments. Please use "dtypes" to provide a column name -> dtype mapping. "dtype" remains as an alias but is deprecated.')
+        return dtypes
+    """)
+    for fn_name in ("create", "create_from_unordered", "create_scool"):
+        src = ast.unparse(find(tree, fn_name))
+        if "dtypes = _get_dtypes_arg(dtypes, kwargs)" not in src:
+            raise Unsupported(fn_name + ": the alias is no longer resolved into `dtypes`")
+    return "Definition dtypes_alias_source_pins : bool := true."
+
+
 ITEMS = [
     ("core/_rangequery.py", "comes_before", lambda t: tr_cmp(t, "_comes_before", "comes_before")),
     ("core/_rangequery.py", "contains", lambda t: tr_cmp(t, "_contains", "contains")),
@@ -790,6 +850,8 @@ ITEMS = [
     ("_reduce.py", "float_division_pins_coarsen", tr_float_division_pins("coarsen")),
     ("util.py", "get_binsize", tr_get_binsize),
     ("util.py", "parse_region_tail", tr_parse_region),
+    ("create/_create.py", "rename_chroms_source_pins", tr_rename_pins),
+    ("create/_create.py", "dtypes_alias_source_pins", tr_dtypes_alias_pins),
 ]
 
 
